@@ -265,7 +265,117 @@ PLANS_C14_15_17 = {
         trusted_base=TB_COMMON, checker_cmd="make -C coq && coqc theories/Properties/C17.v"),
 }
 
+# ------------------------------------------------------------------ C04 (parallel) and C09 (memoized binds)
+
+ORACLES_ALL = "C01,C02,C03,C05,C06,C07,C10,C13"
+TEARDOWN_FRAMES = ("zeroNode", "removeNode", "becameUnnecessary", "invalidateNode", "removeParents", "removeParent",
+                   "checkIfUnnecessary", "changeParent", "unlink", "bindLeftChangeIncr", "propagateInvalidity", "removeNodeUnsafe")
+
+
+def race_sites(log):
+    """parse Go race detector output: one (siteA, siteB) pair of library frames per report"""
+    import re
+    out = []
+    for rep in log.split("WARNING: DATA RACE")[1:]:
+        rep = rep.split("==================")[0]
+        stacks = re.split(r"\n(?=Previous |Goroutine )", rep)
+        sites = []
+        for st in stacks[:2]:
+            frames = re.findall(r"go-incr\.(?:\(\*?([\w\[\],. ]+?)\)\.)?(\w+)(?:\[[^\]]*\])?\(\)\n\s+(/repo/[\w/.]+:\d+)", st)
+            names = [f[1] for f in frames]
+            lines = [f[2] for f in frames]
+            sites.append((names, lines))
+        if len(sites) == 2:
+            out.append(sites)
+    return out
+
+
+def run_par_stream(ctx, K, binary, profile, par, n, name, race, known_prefix=""):
+    """run incrtrace with -par in a child process; returns the report or None; parses race reports"""
+    import json as _json
+    report = os.path.join(ctx.workdir, name + ".json")
+    cases = os.path.join(ctx.rundir, "cases_%s_%s.v" % (ctx.pid, name.replace("-", "_")))
+    args = [binary, "-prop", profile, "-par", str(par), "-claim", "C04", "-include", ORACLES_ALL, "-n", str(n), "-seed", str(ctx.seed),
+            "-coq", cases, "-coqmax", str(tier_n(ctx, 40, 300)), "-json", report]
+    env = dict(K.GOENV, GORACE="halt_on_error=0 exitcode=66")
+    rc, out = K.sh(args, 3000, cwd=ctx.workdir, env=env)
+    open(os.path.join(ctx.workdir, name + ".log"), "w").write(out)
+    rep = None
+    if os.path.exists(report):
+        rep = _json.load(open(report))
+        rep["name"] = name
+        ctx.reports.append(rep)
+        for v in rep.get("violations") or []:
+            ctx.violation(v["what"], known_prefix + v["key"], v["replay"])
+    for sites in race_sites(out):
+        names = sites[0][0] + sites[1][0]
+        a = sites[0][1][0] if sites[0][1] else "?"
+        b = sites[1][1][0] if sites[1][1] else "?"
+        kind = "bind-teardown-vs-recompute" if any(f in TEARDOWN_FRAMES or f.startswith("bindLeftChange") for f in names) else "other"
+        key = "%srace:%s:%s|%s" % (known_prefix, kind, min(a, b), max(a, b))
+        ctx.violation("data race during ParallelStabilize(parallelism %d) on generated %s histories: %s (%s) vs %s (%s)"
+                      % (par, profile, sites[0][0][:1], a, sites[1][0][:1], b), key,
+                      dict(kind="race", profile=profile, parallelism=par, seed=ctx.seed, stacks=[sites[0][1][:6], sites[1][1][:6]],
+                           cmd=" ".join(args)))
+    if rc not in (0, 66) or rep is None:
+        ctx.violation("the process running ParallelStabilize(parallelism %d) on generated %s histories died (rc=%s): %s"
+                      % (par, profile, rc, out.strip()[-400:]), known_prefix + "crash:parallel-pass",
+                      dict(kind="crash", profile=profile, parallelism=par, seed=ctx.seed, cmd=" ".join(args), tail=out[-2000:]))
+    return rep, cases
+
+
+def run_C04(ctx, K):
+    b = K.go_build(ctx, "incrtrace")
+    br = K.go_build(ctx, "incrtrace", race=True)
+    if not b or not br:
+        return
+    # 1. ParallelStabilize at parallelism 1 is deterministic: replay on the model (binds included)
+    for profile in ("static", "C01"):
+        rep, cases = run_par_stream(ctx, K, b, profile, 1, tier_n(ctx, 40, 600), "par1-" + profile, False)
+        if rep:
+            ctx.coq_cases += rep.get("coq_cases", 0)
+            K.run_cases(ctx, cases, "Engine.parStabilize~ParallelStabilize(parallelism 1), %s stream" % profile)
+    # 2. bind-free graphs, real overlap, race detector on: twin comparison with Stabilize
+    for par in ((4,) if ctx.quick() else (2, 4, 16)):
+        run_par_stream(ctx, K, br, "static", par, tier_n(ctx, 150, 1500), "race-static-p%d" % par, True)
+    # 3. graphs with binds, real overlap, race detector on, in a child process (a known finding lives here)
+    for par in ((4,) if ctx.quick() else (4, 16)):
+        run_par_stream(ctx, K, br, "binds", par, tier_n(ctx, 300, 2000), "race-binds-p%d" % par, True)
+
+
+def run_C09(ctx, K):
+    b = K.go_build(ctx, "incrtrace")
+    if not b:
+        return
+    cases = os.path.join(ctx.rundir, "cases_C09_memo.v")
+    rep = K.run_tool(ctx, b, ["-prop", "memo", "-claim", "C09", "-include", "C01,C05,C06,C07,C10", "-n", str(tier_n(ctx, 150, 3000)),
+                              "-coq", cases, "-coqmax", str(tier_n(ctx, 60, 400)), "-seed", str(ctx.seed)], "engine-memo")
+    if rep:
+        ctx.coq_cases += rep.get("coq_cases", 0)
+        K.run_cases(ctx, cases, "Engine.v (memoized binds)~incrutil.BindMemoized (memo stream)")
+    cases = os.path.join(ctx.rundir, "cases_C09_keys.v")
+    rep = K.run_tool(ctx, b, ["-mode", "memokeys", "-len", str(tier_n(ctx, 5, 7)), "-claim", "C09", "-include", "C01,C05,C06,C07,C10",
+                              "-coq", cases, "-coqmax", str(tier_n(ctx, 60, 400)), "-seed", str(ctx.seed)], "memo-keys")
+    if rep:
+        ctx.coq_cases += rep.get("coq_cases", 0)
+        K.run_cases(ctx, cases, "Engine.v (memoized binds)~incrutil.BindMemoized (exhaustive key sequences)")
+
+
+PLANS_C04_C09 = {
+    "C04": dict(run=run_C04,
+        assumptions=["partial: the Go memory model and scheduler are outside the model; the model runs ParallelStabilize as one sequential schedule "
+                     "(each height block in queue order) and the theorems show the order inside a block is immaterial for blocks without bind lhs-change nodes",
+                     "race freedom of the real code is examined only dynamically: race detector on generated programs, twin comparison with Stabilize"],
+        trusted_base=ENGINE_TB + ["Go race detector"], checker_cmd="make -C coq && coqc theories/Properties/C04.v"),
+    "C09": dict(run=run_C09,
+        assumptions=["a memoized bind has the same from-scratch meaning as a plain bind (Spec.eval ignores the cache); the engine model runs the cache as "
+                     "incrutil.BindMemoized does (hit: cached root reused, function not run; subgraphs built in the enclosing scope)",
+                     "caches shared between several binds are exercised by the harness only"],
+        trusted_base=ENGINE_TB, checker_cmd="make -C coq && coqc theories/Properties/C09.v"),
+}
+
 PLANS.update(PLANS_C19_C20)
+PLANS.update(PLANS_C04_C09)
 PLANS.update(PLANS_C14_15_17)
 PLANS.update(PLANS_C16)
 
